@@ -16,7 +16,7 @@ OPS = ["tslice", "fslice", "stokes_get", "to_intensity", "to_linear", "to_circul
        "to_dask", "contains", "channel_freqs", "concat", "snippet_i", "snippet_f", "snippet_bad", "time_shift",
        "time_shift_crop", "time_shift_arr", "freq_shift", "fast_len", "coh", "coh_chirp", "chirp", "incoh", "stft",
        "istft", "r2c", "ufunc", "ufunc_q", "asarray", "transform", "concat_bad", "pickle", "str", "time_shift_tiny", "snippet_q",
-       "snippet_tiny"]
+       "snippet_tiny", "construct", "construct_bad"]
 FUNCS = {"tslice": ["core:Signal.__getitem__", "core:Signal._time_slice", "core:Signal.like"],
          "istft": ["contrib.misc:istft"], "stft": ["contrib.misc:stft"], "r2c": ["utils:real_to_complex"],
          "time_shift": ["transforms.transforms:time_shift"], "time_shift_crop": ["transforms.transforms:time_shift"],
@@ -28,7 +28,8 @@ FUNCS = {"tslice": ["core:Signal.__getitem__", "core:Signal._time_slice", "core:
          "snippet_i": ["transforms.transforms:snippet"], "time_shift_tiny": ["transforms.transforms:time_shift"],
          "snippet_q": ["transforms.transforms:snippet", "transforms.transforms:time_shift"],
          "snippet_tiny": ["transforms.transforms:snippet", "transforms.transforms:time_shift"], "snippet_f": ["transforms.transforms:snippet", "transforms.transforms:time_shift"],
-         "ufunc": ["core:Signal.__array_ufunc__"], "fast_len": ["transforms.transforms:fast_len"]}
+         "ufunc": ["core:Signal.__array_ufunc__"], "fast_len": ["transforms.transforms:fast_len"],
+         "construct": ["core:Signal.__init__", "core:Signal.like"], "construct_bad": ["core:Signal.__init__", "core:Signal.like"]}
 
 
 class Prop(PropBase):
@@ -145,6 +146,26 @@ class Prop(PropBase):
             return [z], lambda: z.to_stokes()
         if call == "like":
             return [z], lambda: type(z).like(z, z.data[:4], meta={"new": 1})
+        if call in ("construct", "construct_bad"):
+            # a caller's writable buffer handed to a constructor, in the class's dtype, in a dtype that needs a cast, and in
+            # non-native byte order (as read from big-endian files); also when the call goes on to raise
+            base = np.array(np.asarray(z.data)[:6])
+            cplx = np.iscomplexobj(base)
+            kinds = (["c16", ">c16", ">c8", "c8"] if cplx else ["f8", ">f8", ">f4", "f4", "i2", ">i2"])
+            arr = base.astype(np.dtype(kinds[int(g.integers(len(kinds)))]))
+            generic = pb.Signal(arr, sample_rate=z.sample_rate)
+            kwb = {"freq_align": "sideways"} if (call == "construct_bad" and radio) else {}
+
+            def build():
+                outs = []
+                for f in (lambda: type(z).like(z, arr, **kwb), lambda: type(z).like(generic, **{k: getattr(z, k) for k in
+                          ("center_freq", "chan_bw", "freq_align", "pol_type") if hasattr(z, k) and not (k == "chan_bw" and bb)}, **kwb)):
+                    try:
+                        outs.append(f())
+                    except ValueError:
+                        outs.append(None)
+                return outs
+            return [z, arr, generic], build
         if call == "compute":
             return [z], lambda: z.compute()
         if call == "to_dask":
